@@ -19,6 +19,7 @@ type lockCore struct {
 	holderW  *Task
 	holdersR map[*Task]int
 	holderG  uintptr // free mode: goroutine holding the write lock
+	readersG map[uintptr]int // free mode: goroutines holding read locks
 }
 
 func (l *lockCore) init() {
@@ -47,9 +48,10 @@ func (l *lockCore) canRead() bool  { l.mu.Lock(); defer l.mu.Unlock(); return !l
 
 // free-mode registry of goroutines waiting for a lock (diagnosis of wedges)
 type fwWaiter struct {
-	pc uintptr
-	g  uintptr
-	l  *lockCore
+	pc    uintptr
+	g     uintptr
+	l     *lockCore
+	write bool
 }
 
 var (
@@ -58,59 +60,101 @@ var (
 	fwNext    uint64
 )
 
-func fwAddL(pc uintptr, l *lockCore) uint64 {
+func fwWaiters0() map[uint64]fwWaiter { return fwWaiters }
+
+func fwAddL(pc uintptr, l *lockCore, write bool) uint64 {
 	fwMu.Lock()
 	fwNext++
 	id := fwNext
-	fwWaiters[id] = fwWaiter{pc, getg(), l}
+	fwWaiters[id] = fwWaiter{pc, getg(), l, write}
 	fwMu.Unlock()
 	return id
 }
 
-// FreeLockCycle looks for a cycle in the free-mode wait-for graph (waiter ->
-// goroutine holding the write lock it waits for), including self-deadlock, and
-// returns the call sites of the waiters on the cycle (sorted), or nil.
+// FreeLockCycle looks for a cycle in the free-mode wait-for graph and returns the
+// call sites of the waiters on it (sorted), or nil. Edges: a waiter waits for the
+// goroutine holding the write lock; a waiting writer also waits for every goroutine
+// holding a read lock; a reader held back by a waiting writer (writer preference, as
+// in sync.RWMutex) waits for that writer. Self-deadlock is a cycle of length one.
 func FreeLockCycle() []string {
+	// copy the registry first: goroutines register (fwMu) while holding their lock's
+	// own mutex, so the lock states must not be read with fwMu held
 	fwMu.Lock()
-	defer fwMu.Unlock()
+	fwWaiters := make(map[uint64]fwWaiter, len(fwWaiters0()))
+	for id, w := range fwWaiters0() {
+		fwWaiters[id] = w
+	}
+	fwMu.Unlock()
 	byG := map[uintptr]fwWaiter{}
-	for _, w := range fwWaiters {
+	var ids []uint64
+	for id := range fwWaiters {
+		ids = append(ids, id)
+	}
+	sort.Slice(ids, func(i, j int) bool { return ids[i] < ids[j] })
+	for _, id := range ids {
+		w := fwWaiters[id]
 		byG[w.g] = w
 	}
-	var gs []uintptr
-	for g := range byG {
-		gs = append(gs, g)
-	}
-	best := []string(nil)
-	for _, start := range gs {
-		var path []string
-		g := start
-		for i := 0; i < 16; i++ {
-			w, ok := byG[g]
-			if !ok {
-				path = nil
-				break
-			}
-			path = append(path, SiteOf(w.pc))
-			w.l.mu.Lock()
-			h := w.l.holderG
-			w.l.mu.Unlock()
-			if h == 0 {
-				path = nil
-				break
-			}
-			if h == start {
-				break
-			}
-			g = h
-			if i == 15 {
-				path = nil
+	succ := func(w fwWaiter) []uintptr {
+		var out []uintptr
+		w.l.mu.Lock()
+		if w.l.holderG != 0 {
+			out = append(out, w.l.holderG)
+		}
+		if w.write {
+			for g, n := range w.l.readersG {
+				if n > 0 {
+					out = append(out, g)
+				}
 			}
 		}
-		if path != nil {
-			sort.Strings(path)
-			if best == nil || len(path) < len(best) || (len(path) == len(best) && strings.Join(path, "+") < strings.Join(best, "+")) {
-				best = path
+		held := w.l.w
+		w.l.mu.Unlock()
+		if !w.write && !held {
+			for _, id := range ids {
+				o := fwWaiters[id]
+				if o.l == w.l && o.write {
+					out = append(out, o.g)
+				}
+			}
+		}
+		sort.Slice(out, func(i, j int) bool { return out[i] < out[j] })
+		return out
+	}
+	best := []string(nil)
+	for _, id := range ids {
+		start := fwWaiters[id].g
+		// breadth-first search for the shortest path from start back to start
+		type node struct {
+			g    uintptr
+			path []string
+		}
+		queue := []node{{start, nil}}
+		seen := map[uintptr]bool{}
+		var found []string
+		for len(queue) > 0 && found == nil {
+			n := queue[0]
+			queue = queue[1:]
+			w, ok := byG[n.g]
+			if !ok {
+				continue // not waiting: it can still run
+			}
+			path := append(append([]string{}, n.path...), SiteOf(w.pc))
+			for _, g := range succ(w) {
+				if g == start {
+					found = path
+					break
+				}
+				if !seen[g] && len(path) < 16 {
+					seen[g] = true
+					queue = append(queue, node{g, path})
+				}
+			}
+		}
+		if found != nil {
+			sort.Strings(found)
+			if best == nil || len(found) < len(best) || (len(found) == len(best) && strings.Join(found, "+") < strings.Join(best, "+")) {
+				best = found
 			}
 		}
 	}
@@ -154,7 +198,7 @@ func (l *lockCore) lock(kind string) {
 		l.init()
 		l.pendingW++
 		if l.w || l.r > 0 {
-			id := fwAddL(sitePC(4), l)
+			id := fwAddL(sitePC(4), l, true)
 			for l.w || l.r > 0 {
 				if l.cond == nil {
 					l.cond = sync.NewCond(&l.mu)
@@ -216,7 +260,7 @@ func (l *lockCore) rlock() {
 		l.mu.Lock()
 		l.init()
 		if l.w || l.pendingW > 0 {
-			id := fwAddL(sitePC(4), l)
+			id := fwAddL(sitePC(4), l, false)
 			for l.w || l.pendingW > 0 {
 				if l.cond == nil {
 					l.cond = sync.NewCond(&l.mu)
@@ -226,6 +270,10 @@ func (l *lockCore) rlock() {
 			fwDel(id)
 		}
 		l.r++
+		if l.readersG == nil {
+			l.readersG = map[uintptr]int{}
+		}
+		l.readersG[getg()]++
 		l.mu.Unlock()
 		return
 	}
@@ -261,6 +309,19 @@ func (l *lockCore) runlock() {
 	l.mu.Lock()
 	if l.r > 0 {
 		l.r--
+	}
+	if l.readersG != nil {
+		g := getg()
+		if l.readersG[g] > 1 {
+			l.readersG[g]--
+		} else {
+			delete(l.readersG, g)
+		}
+		if l.r == 0 {
+			for k := range l.readersG {
+				delete(l.readersG, k)
+			}
+		}
 	}
 	if l.holdersR != nil {
 		if t := curTask(); t != nil {
